@@ -238,7 +238,7 @@ CallBuiltin(d, env, name, args, ctx) ==
          IF n > 1 THEN Bad
          \* for a number beyond the digit-exact range the specification states the obligation instead of the spelling:
          \* decimal notation without exponent that reads back to the same double, integers without a point
-         ELSE IF n = 1 /\ A(1).t = "num" /\ A(1).v.c = "pow2" THEN [t |-> "numstr", v |-> A(1).v]
+         ELSE IF n = 1 /\ A(1).t = "num" /\ A(1).v.c \in {"pow2", "named"} THEN [t |-> "numstr", v |-> A(1).v]
          ELSE StrOrErr(S1)
     [] name = <<"c","o","n","c","a","t">> ->
          IF n < 2 THEN Bad ELSE StrOrErr(Flatten([i \in 1..n |-> ToStr(d, A(i))]))
